@@ -145,11 +145,16 @@ def run(ck):
         npl, dpl = [250, 320][(j // 2) % 2], 3          # 250: one split level, the pure half is a leaf at once; 320: the pure half is split again
         Xp = xr.make_X('random', npl, dpl, rng); yp = (Xp[:, 0] > np.sort(Xp[:, 0])[-7]).astype(np.int64)         # 6 positives, all at the largest x0
         Xvp = xr.make_X('random', 80, dpl, rng); yvp = (Xvp[:, 0] > np.sort(Xp[:, 0])[-7]).astype(np.int64); yvp[0] = 1; yvp[1] = 0
+        if j % 5 in (1, 3):
+            # the rare class carries no signal (7 positives scattered at random, 2 among the validation rows): no tree predicts a positive anywhere
+            yp = np.zeros(npl, dtype=np.int64); yp[rng.choice(npl, 7, replace=False)] = 1
+            yvp = np.zeros(80, dtype=np.int64); yvp[rng.choice(80, 2, replace=False)] = 1
         modep = ['zero_one', 'prevalence'][j % 2]
         paramsp = None if j % 4 == 3 else xr.default_rfm_params(kernel=['l2_high_dim', 'l2', 'l1'][j % 3], iters=[2, 1, 3][j % 3], reg=1e-2, bandwidth=4.0, return_best=bool(j % 4 == 2))
-        descp = dict(kind='pure leaves', j=j, mode=modep, n=npl, positives=int(yp.sum()), default_params=paramsp is None, soft=bool(j % 3 == 1), n_trees=[1, 2][j % 2], seed=ck.seed)
+        descp = dict(kind='pure leaves', j=j, metric=['brier', 'f1', 'brier', 'f1', 'accuracy'][j % 5], mode=modep, n=npl, positives=int(yp.sum()), default_params=paramsp is None, soft=bool(j % 3 == 1), n_trees=[1, 2][j % 2], seed=ck.seed)
         xr.seed_all(1260 + j + ck.seed)
-        mp_ = xr.xRFM(rfm_params=paramsp, max_leaf_size=130, n_trees=[1, 2][j % 2], verbose=False, tuning_metric='brier', classification_mode=modep, use_temperature_tuning=False,
+        metricp = ['brier', 'f1', 'brier', 'f1', 'accuracy'][j % 5]          # F1: with so few positives no tree predicts one on its validation rows — every tree scores exactly 0
+        mp_ = xr.xRFM(rfm_params=paramsp, max_leaf_size=130, n_trees=[2, 3][(j // 2) % 2] if j % 5 in (1, 3) else [1, 2][j % 2], verbose=False, tuning_metric=metricp, classification_mode=modep, use_temperature_tuning=False,
                       split_temperature=(0.5 if j % 3 == 1 else None), refill_size=25)
         try:
             with xr.quiet():
